@@ -47,7 +47,15 @@ def gen(rng, tier):
             "shutdown_at": rng.choice([0, 0.02, 0.1, 0.3, 0.6]),
             "wait": rng.random() < 0.7, "cancel_futures": rng.choice([None, None, True, False]),
             "racers": rng.choice([0, 1, 2]), "repeat": rng.choice([1, 2]), "settle": 5.0,
-            "shutters": rng.choice([1, 1, 1, 2])}
+            "shutters": rng.choice([1, 1, 1, 2]),
+            # an inner executor of the chain (or the shared base) is shut down directly first, a
+            # submit() on the outer one is then refused from *inside* it - after which shutdown() of
+            # the outer executor, from another thread, must still return
+            "inner_first": rng.random() < 0.12}
+    if spec["inner_first"]:
+        for L in layers:
+            if L["t"] == "throttle":
+                L["block"] = False     # (a blocking submit over a dead delegate waits for room that never comes: by specification)
     spec["sim"] = runner.draw_sim_cfg(rng, est=500)
     spec["sim"]["horizon_s"] = 500000
     return spec
@@ -140,6 +148,20 @@ def run(spec, env):
             except Exception as err:
                 env.rec("post-submit", type(e).__name__, type(err).__name__, str(err)[:80])
 
+    if spec.get("inner_first") and len(chain) >= 2:
+        def inner_first():
+            k = (spec["nsubs"] * 7 + len(chain)) % (len(chain) - 1)
+            env.rec("inner-shutdown", k)
+            chain[k].shutdown(True)
+            try:
+                work_ex.submit(make_fn(0))
+                env.rec("inner-submit", "accepted")
+            except RuntimeError as e:
+                env.rec("inner-submit", "RuntimeError")
+            except Exception as e:
+                env.rec("inner-submit", type(e).__name__)
+        t_in = env.client(inner_first, "client-in")
+        env.join(t_in)
     for k in range(spec["racers"]):
         env.client(racer(k))
     if spec.get("shutters", 1) > 1:
@@ -182,7 +204,9 @@ def check(spec, env):
     # propagation: exactly one shutdown at the base, same arguments
     base_sd = [e for e in log if e[3] == "spy-shutdown"]
     want_kw = tuple(sorted(({"cancel_futures": spec["cancel_futures"]} if spec["cancel_futures"] is not None else {}).items()))
-    if len(base_sd) != 1:
+    if spec.get("inner_first"):
+        pass    # somebody shut an inner executor down directly: what the base sees is no longer determined by the outer call
+    elif len(base_sd) != 1:
         out.append({"oracle": "propagation", "sig": "base-shutdown-count|%s|%d" % (cul, len(base_sd)),
                     "msg": "the wrapped base executor saw %d shutdown() calls for %d shutdown() calls on the stack; layers %s" % (len(base_sd), len(sds), types)})
     else:
